@@ -279,25 +279,77 @@ func evalTokenStrings() (map[int64]string, error) {
 }
 
 func (a *Act) modelCall(ctx *blockCtx, key string, callee *ssa.Function, c *ssa.CallCommon, args []Val, resT types.Type, pos token.Pos) (Val, bool) {
+	v, _, ok := a.modelCall2(ctx, key, callee, c, args, resT, pos)
+	return v, ok
+}
+
+func (a *Act) modelCall2(ctx *blockCtx, key string, callee *ssa.Function, c *ssa.CallCommon, args []Val, resT types.Type, pos token.Pos) (Val, []Val, bool) {
 	g := a.g
 	switch key {
 	case "token.(Type).String":
 		if n, err := strconv.ParseInt(args[0].T, 10, 64); err == nil && tokenStrings != nil {
 			if s, ok := tokenStrings[n]; ok {
 				g.usedAssumed["token.(Type).String evaluated by running the real method (go run) at generation time"] = true
-				return Val{T: g.w.lit(s), S: "Str", G: resT}, true
+				return Val{T: g.w.lit(s), S: "Str", G: resT}, nil, true
+			}
+		}
+	case "encoding/json.Unmarshal":
+		// model for Unmarshal(data, &m) where m is a nil map[string]string living in a known location
+		if bv, ok := g.boxed[args[1].T]; ok && bv.L != nil {
+			if mt, ok := bv.L.ElemG.Underlying().(*types.Map); ok && g.w.sortOf(mt.Key()) == "Str" && g.w.sortOf(mt.Elem()) == "Str" {
+				g.usedAssumed["encoding/json.Unmarshal into a nil map[string]string (model: succeeds iff the data is a JSON object of strings; then the map holds exactly its members)"] = true
+				content := "(" + g.strofFn() + " " + args[0].T + ")"
+				cur := g.load(ctx.st, bv)
+				g.oblige("model", a.key+"/model/json.Unmarshal-target-nil", ctx.reach, "(= "+cur.T+" ref_nil)", "Unmarshal model applies only to a nil target map", g.pos(pos), a.safetyProps())
+				jv := g.w.specFuns["jsonValid"]
+				jg := g.w.specFuns["jsonGet"]
+				jh := g.w.specFuns["jsonHas"]
+				if jv == nil || jg == nil || jh == nil {
+					return Val{}, nil, false
+				}
+				okc := "(" + jv.SMTName + " " + content + ")"
+				hv, _, _ := g.w.mapHeap(mt)
+				m := a.freshRef(ctx, "unmarshalled")
+				mv := g.fresh("jsonmap", "(MapV Str Str)")
+				qk := g.freshName("qk")
+				g.fact("(forall ((" + qk + " Str)) (! (and (= (select (map_dom " + mv + ") " + qk + ") (" + jh.SMTName + " " + content + " " + qk + ")) (= (select (map_val " + mv + ") " + qk + ") (" + jg.SMTName + " " + content + " " + qk + "))) :pattern ((select (map_dom " + mv + ") " + qk + ")) :pattern ((select (map_val " + mv + ") " + qk + "))))")
+				// success branch effects, guarded by okc
+				okB := g.fresh("unmarshal_ok", "Bool")
+				g.fact("(= " + okB + " " + okc + ")")
+				stOK := ctx.st.clone()
+				stOK[hv] = "(store " + g.stateGet(ctx.st, hv) + " " + m + " " + mv + ")"
+				sub := &blockCtx{reach: ctx.reach, st: stOK}
+				a.store(sub, bv, Val{T: m, S: "Ref", G: bv.L.ElemG}, pos)
+				ctx.st = g.mergeStates([]edge{{cond: okB, st: sub.st}, {cond: not(okB), st: ctx.st}}, "unmarshal")
+				errv := a.freshVal(resT, "unmarshal_err")
+				g.fact("(= (= " + errv.T + " iface_nil) " + okB + ")")
+				return errv, nil, true
+			}
+		}
+	case "encoding/json.Marshal":
+		if bv, ok := g.boxed[args[0].T]; ok && bv.G != nil {
+			if mt, ok := bv.G.Underlying().(*types.Map); ok && g.w.sortOf(mt.Key()) == "Str" && g.w.sortOf(mt.Elem()) == "Str" {
+				mm := g.w.specFuns["marshalMap"]
+				if mm == nil {
+					return Val{}, nil, false
+				}
+				g.usedAssumed["encoding/json.Marshal of a map[string]string never fails and yields marshalMap of the map value"] = true
+				bs := a.freshVal(types.NewSlice(types.Typ[types.Byte]), "marshalled")
+				errv := Val{T: "iface_nil", S: "Iface", G: types.Universe.Lookup("error").Type()}
+				g.fact("(= (" + g.strofFn() + " " + bs.T + ") (" + mm.SMTName + " " + g.mapvalTerm(ctx.st, bv, mt) + "))")
+				return Val{}, []Val{bs, errv}, true
 			}
 		}
 	case "strings.HasPrefix", "strings.HasSuffix":
 		if lit, ok := g.litOf(args[1].T); ok {
 			g.usedAssumed[key+" (built-in model for literal argument)"] = true
 			if key == "strings.HasPrefix" {
-				return boolT(hasPrefixAt(args[0].T, "0", lit)), true
+				return boolT(hasPrefixAt(args[0].T, "0", lit)), nil, true
 			}
-			return boolT(hasPrefixAt(args[0].T, fmt.Sprintf("(- (slen %s) %d)", args[0].T, len(lit)), lit)), true
+			return boolT(hasPrefixAt(args[0].T, fmt.Sprintf("(- (slen %s) %d)", args[0].T, len(lit)), lit)), nil, true
 		}
 	}
-	return Val{}, false
+	return Val{}, nil, false
 }
 
 func (g *Gen) litOf(term string) (string, bool) {
